@@ -172,7 +172,7 @@ def mk_probes(tier, only=None, seed=0):
         return only is None or f in only
 
     full = tier == "thorough"
-    TMO = 900000 if full else 150000
+    TMO = 200000 if full else 150000
     # ---- all conversions involving a floating type (12x12 minus the 81 integer pairs)
     if want("conv"):
         for t1 in ARITH12:
